@@ -27,7 +27,9 @@ SITE = {"begin": "inplace.begin", "errReturn": "inplace.errReturn", "tempCreated
         "renamed": "inplace.renamed", "chmodded": "inplace.chmodded"}
 RSITE = {v: k for k, v in SITE.items()}
 WRITEFAIL_PAD = 30000            # two such records exceed the limit below several times over
-WRITEFAIL_LIMIT_BLOCKS = 32
+WRITEFAIL_LIMIT_BLOCKS = 8       # (sh counts 512-byte blocks: 4 KiB)
+WRITEFAIL_GZ_PAD = 6000          # two such records are little enough for the recompressor to hold them back until it is
+                                 # closed, and their compressed form still exceeds the limit
 FORMATS = {
     "dkvp": {"flags": [], "rec": lambda i: "i=%d\n" % i, "head": "", "ext": "dkvp"},
     "csv": {"flags": ["--csv"], "rec": lambda i: "%d\n" % i, "head": "i\n", "ext": "csv"},
@@ -51,11 +53,17 @@ def file_plan(sc, fmt):
         body = F["head"] + "".join(F["rec"](i) for i in ids)
         if kind == "writefail":
             # records too big for the file size limit the command runs under (render): the temp file cannot take them
-            pad = "p" * WRITEFAIL_PAD
-            body = {"dkvp": "".join("i=%d,pad=%s\n" % (i, pad) for i in ids),
-                    "csv": "i,pad\n" + "".join("%d,%s\n" % (i, pad) for i in ids),
-                    "tsv": "i\tpad\n" + "".join("%d\t%s\n" % (i, pad) for i in ids),
-                    "json": "".join('{"i": %d, "pad": "%s"}\n' % (i, pad) for i in ids)}[fmt]
+            import hashlib
+
+            def pad(i):
+                if not gz:
+                    return "p" * WRITEFAIL_PAD
+                # text that does not compress, different in every record: the recompressed output, too, exceeds the limit
+                return "".join(hashlib.sha256(("%d:%d" % (i, j)).encode()).hexdigest() for j in range(WRITEFAIL_GZ_PAD // 64 + 1))[:WRITEFAIL_GZ_PAD]
+            body = {"dkvp": "".join("i=%d,pad=%s\n" % (i, pad(i)) for i in ids),
+                    "csv": "i,pad\n" + "".join("%d,%s\n" % (i, pad(i)) for i in ids),
+                    "tsv": "i\tpad\n" + "".join("%d\t%s\n" % (i, pad(i)) for i in ids),
+                    "json": "".join('{"i": %d, "pad": "%s"}\n' % (i, pad(i)) for i in ids)}[fmt]
         if kind == "streamerr" and fmt in ("csv", "tsv") and f % 2 == 0:
             # malformed input instead of a DSL error: a ragged last row
             body = body[:-len(F["rec"](13))] + ("13,extra\n" if fmt == "csv" else "13\textra\n")
@@ -93,8 +101,10 @@ def render(mlr, sc, fmt, crash):
     if imm or limited:
         import shlex
         cmd = " ".join(shlex.quote(a) for a in argv)
-        if limited:       # (sh counts 512-byte blocks: 16 KiB, far above every other file and the hook log)
-            cmd = "(ulimit -f %d; exec %s)" % (WRITEFAIL_LIMIT_BLOCKS, cmd)
+        if limited:
+            # the limit applies to every file the process writes: the hook log goes through a FIFO to a reader outside the limit
+            cmd = ("mkfifo tr.fifo; cat tr.fifo > trace.ndjson & (ulimit -f %d; MLR_VERIF_TRACE=tr.fifo exec %s); rc=$?; wait; "
+                   "rm -f tr.fifo; (exit $rc)" % (WRITEFAIL_LIMIT_BLOCKS, cmd))
         if imm:
             cmd = "chattr +i %s; %s; rc=$?; chattr -i %s; exit $rc" % (" ".join(imm), cmd, " ".join(imm))
         case["shell"] = cmd
